@@ -2,7 +2,10 @@
    Linked with -Wl,--wrap=getgrent_r,--wrap=setgrent,--wrap=endgrent,--wrap=getpwnam_r.
    The database is the text file named by VERIF_NSS_DB, re-read at every setgrent():
      g <gid> <name>[,<name>...]      (a group entry; "-" for no members)
-     u <name> <uid>                  (a passwd entry; first match wins)
+     u <name> <uid> [<n>]            (a passwd entry; first match wins; n = length of its GECOS field, so that a
+                                      large n makes the entry exceed the caller's buffer: ERANGE until it has grown)
+   VERIF_NSS_DELAY_US = microseconds every getgrent_r call takes (a slow directory service: widens the window in which
+   a refresh of the group map is in progress).
 */
 #include <errno.h>
 #include <grp.h>
@@ -37,6 +40,7 @@ int __wrap_getgrent_r(struct group *gr, char *buf, size_t buflen, struct group *
     char *line, *sp, *names; size_t need; int nmem = 0, i; char *p, **mem, *s;
     *res = NULL;
     { const char *f = getenv("VERIF_NSS_FAIL"); if (f && access(f, F_OK) == 0) return EIO; }   /* scan fails */
+    { const char *d = getenv("VERIF_NSS_DELAY_US"); if (d) usleep((useconds_t) atoi(d)); }
     if (!g_lines || g_pos >= g_n) return ENOENT;
     line = g_lines[g_pos];
     sp = strchr(line, ' ');
@@ -65,10 +69,14 @@ int __wrap_getpwnam_r(const char *name, struct passwd *pw, char *buf, size_t buf
     if (!u_lines) load();
     for (i = 0; i < u_n; i++) {
         if (!strncmp(u_lines[i], name, l) && u_lines[i][l] == ' ') {
-            if (buflen < l + 8) return ERANGE;
+            char *e = NULL; size_t pad;
+            unsigned long uid = strtoul(u_lines[i] + l + 1, &e, 10);
+            pad = (e && *e == ' ') ? (size_t) strtoul(e + 1, NULL, 10) : 0;
+            if (buflen < l + 8 + pad) return ERANGE;        /* *pw untouched, as with glibc */
             strcpy(buf, name);
             pw->pw_name = buf; pw->pw_passwd = buf + l; pw->pw_gecos = buf + l; pw->pw_dir = buf + l; pw->pw_shell = buf + l;
-            pw->pw_uid = (uid_t) strtoul(u_lines[i] + l + 1, NULL, 10);
+            if (pad) { memset(buf + l + 1, 'x', pad); buf[l + 1 + pad] = 0; pw->pw_gecos = buf + l + 1; }
+            pw->pw_uid = (uid_t) uid;
             pw->pw_gid = pw->pw_uid;
             *res = pw;
             return 0;
